@@ -81,6 +81,13 @@ def main():
     undecided = []
     for n in mine:
         r = results[n]
+        rs = r.get('reason') or ''
+        if r['status'] == 'undecided' and any(k.startswith('loop ') for k in units[n]['sections']) and (
+                ('SPEC-ERROR' in rs and 'loops in the extracted body' in rs) or ('has no matching place in the extracted body' in rs)):
+            # the loop structure of the body changed: my loop contracts no longer attach; decide small instances without them
+            r['failed'] = [{'obligation': n + '.loop-structure', 'text': rs[:200]}]
+            r['status'] = 'refuted'
+            r['only_unknown'] = True
         if r['status'] == 'undecided' and 'goto-cc failed' in (r.get('reason') or '') and any(k.startswith('loop ') for k in units[n]['sections']):
             # my loop contracts no longer compile against the extracted body (e.g. a renamed local): the function contract only
             # names parameters, so the invariant-independent bounded re-check can still decide small instances
